@@ -23,11 +23,12 @@ import Driver.StringCase
 import Driver.Verify
 import Driver.Injection
 import Driver.LspRequests
+import Driver.Inspect
 
 open Lean Driver
 
 def allOps : List (String × Handler) :=
-  notationOps ++ indentOps ++ printOps ++ suppressOps ++ spliceOps ++ topoOps ++ selectOps ++ workerOps ++ lspOps ++ frontendsOps ++ loaderOps ++ editDocOps ++ stringCaseOps ++ verifyOps ++ injectionOps ++ lspRequestsOps
+  notationOps ++ indentOps ++ printOps ++ suppressOps ++ spliceOps ++ topoOps ++ selectOps ++ workerOps ++ lspOps ++ frontendsOps ++ loaderOps ++ editDocOps ++ stringCaseOps ++ verifyOps ++ injectionOps ++ lspRequestsOps ++ inspectOps
 
 /-- ops that read or extend the driver state (registered documents) -/
 def allStateOps : List (String × SHandler) :=
